@@ -1003,6 +1003,9 @@ M("C18", "cmn repr: import bound dropped", "src/cmn.c", """    while (nvals < cm
            && (cc = strchr(c, ',')) != NULL) {""", """    while ((cc = strchr(c, ',')) != NULL) {""", "REPR")
 
 # ---- C17 ----------------------------------------------------------------------
+M("C17", "mdef: phone truncation test only for mapped files", "src/bin_mdef.c", "    if ((m->phone + m->n_phone) > (mdef_entry_t *)data_end) {", "    if (m->alloc_mode == BIN_MDEF_ON_DISK\n        && (m->phone + m->n_phone) > (mdef_entry_t *)data_end) {", "REGION.checked")
+M("C17", "mdef: tree truncation test skipped when swapping", "src/bin_mdef.c", "    if ((m->cd_tree + m->n_cd_tree) > (cd_tree_t *)data_end) {", "    if (!s->do_swap && (m->cd_tree + m->n_cd_tree) > (cd_tree_t *)data_end) {", "REGION.checked")
+M("C17", "benign: truncation test compared in bytes", "src/bin_mdef.c", "    if ((m->phone + m->n_phone) > (mdef_entry_t *)data_end) {", "    if ((const char *)(m->phone + m->n_phone) > data_end) {", kind="benign")
 M("C17", "tmat: revert double-free fix", "src/tmat.c", "    ckd_free_2d(tp);\n    tp = NULL;\n", "    ckd_free_2d(tp);\n", "UNWIND")
 M("C17", "ms_mgau: revert NULL senone test", "src/ms_mgau.c", """    if ((s = msg->s = senone_init(msg->g,
                                   config_str(config, "mixw"),
